@@ -58,6 +58,9 @@ func deriveShaChecks(run *hx.Run, r *hx.Rng) {
 		}
 		// sensitivity to single elements (all positions for short lists, the encoding boundaries for long ones)
 		pos := []int{0, 1, 2, 55, 56, 126, 127, 128, 129, 130, 254, 255, 256, 257, n - 2, n - 1}
+		if n > 40 && !(n >= 126 && n <= 132) && !(n >= 254 && n <= 259) && n != 56 && n != 57 && n%50 != 0 && n != 1024 && n != 1025 {
+			continue
+		}
 		if n <= 40 {
 			pos = pos[:0]
 			for i := 0; i < n; i++ {
@@ -112,7 +115,11 @@ func bigBlocks(run *hx.Run, r *hx.Rng, k int) {
 	c.validCases(run, rt)
 	for _, id := range []int{1, 2, 3} {
 		run.Count(fmt.Sprintf("big-block-txs:%d+", len(rt.Nodes[id].Block.Transactions())/64*64))
-		c.corruptBlock(run, rt, r, id, seedTag, bigKinds)
+		kinds := bigKinds
+		if id != 1 {
+			kinds = []string{"equiv-tx@0", "equiv-tx@128", "equiv-tx@255", "equiv-tx@256", "equiv-tx@last", "swap-tx@127", "drop-tx@0"}
+		}
+		c.corruptBlock(run, rt, r, id, seedTag, kinds)
 	}
 }
 
